@@ -33,6 +33,8 @@ OffOf(p, hdr, tr) == IF tr THEN p[1] + hdr[1] * (p[2] + hdr[2] * p[3])
 Spellings == {"none", "type", "dtype", "name", "code", "char", "alias", "builtin"}
 WriteOK(e) ==
     /\ e.sp \in Spellings /\ (e.sp = "none") = (e.dt = "none") /\ (e.sp = "builtin" => e.dt = "f64")
+    /\ e.af \in {"c", "f", "view", "ro"}                    \* storage form of the array: does not enter the law
+    /\ e.arg_kept                                           \* the array handed in is unchanged after the call
     /\ e.valid                                              \* the bytes are a valid file of the extension's format
     /\ e.hdr = (IF e.tr THEN e.shape ELSE Rev(e.shape))
     /\ e.mode = DiskType(IF e.dt = "none" THEN e.dtype ELSE e.dt)
